@@ -118,7 +118,7 @@ fn show_base(b: &Option<BTreeMap<String, (char, u64)>>) -> String {
 
 fn write_config(p: &Proj, ratchet: Option<&str>, fail_fast: bool, wae: bool) {
     let mut t = String::from(
-        "version = \"2\"\n[content]\nmax_lines = 5\nwarn_threshold = 0.8\nextensions = [\"rs\"]\n[structure]\nmax_files = 2\nmax_dirs = 1\nwarn_dirs_at = 0\n[[structure.rules]]\nscope = \"lib\"\nmax_files = 5\ndeny_extensions = [\".bak\"]\n",
+        "version = \"2\"\n[content]\nmax_lines = 5\nwarn_threshold = 0.8\nextensions = [\"rs\"]\n[structure]\nmax_files = 2\nmax_dirs = 1\nwarn_dirs_at = 0\n[[structure.rules]]\nscope = \"lib\"\nmax_files = 5\ndeny_extensions = [\".bak\"]\ndeny_files = [\"denied.rs\"]\n",
     );
     if let Some(r) = ratchet {
         t += &format!("[baseline]\nratchet = \"{r}\"\n");
@@ -131,6 +131,7 @@ fn write_config(p: &Proj, ratchet: Option<&str>, fail_fast: bool, wae: bool) {
     std::fs::write(p.dir.join(".sloc-guard.toml"), t).unwrap();
 }
 
+#[derive(Clone)]
 struct Step {
     /// scan root given on the command line (sub-path root), spelled like the scanner spells paths
     root: Option<&'static str>,
@@ -244,7 +245,7 @@ fn argv(s: &Step, bl: &str) -> Vec<String> {
 }
 
 #[allow(clippy::too_many_lines)]
-fn history(sink: &mut Sink, r: &mut Rng, which: Which, scratch: &str, bin: &str, steps: usize) {
+fn history(sink: &mut Sink, r: &mut Rng, which: Which, scratch: &str, bin: &str, steps: usize, script: &[(&[(&'static str, usize)], Step)]) {
     let dir = PathBuf::from(scratch).join(format!("b{}", sink.n));
     let _ = std::fs::remove_dir_all(&dir);
     std::fs::create_dir_all(&dir).unwrap();
@@ -254,21 +255,29 @@ fn history(sink: &mut Sink, r: &mut Rng, which: Which, scratch: &str, bin: &str,
         p.write_file(f, *r.pick(&[1usize, 3, 4, 5, 8, 12]));
     }
     let mut prev_auto: Option<(BTreeMap<String, (char, u64)>, String)> = None;
-    for _ in 0..steps {
+    for si in 0..steps {
         if !sink.want() {
             sink.skip();
             continue;
         }
-        // 1. edit
-        match r.below(7) {
+        // 1. edit (scripted histories first write the files their step names)
+        if let Some((edits, _)) = script.get(si) {
+            for (f, n) in edits.iter() {
+                p.write_file(f, *n);
+            }
+        } else { match r.below(10) {
             0 => p.write_file(*r.pick(FILES), *r.pick(&[1usize, 4, 5, 9, 14])),
             1 => { let _ = std::fs::remove_file(p.dir.join(*r.pick(FILES))); }
             2 => p.write_file(&format!("src/extra{}.rs", r.below(3)), *r.pick(&[1usize, 7])),
             3 => { let _ = std::fs::remove_file(p.dir.join(format!("src/extra{}.rs", r.below(3)))); }
             4 => p.write_file("lib/old.bak", 2),
+            // a file the placement rules forbid, sometimes over the line limit as well: one path
+            // then carries a violation the baseline can record and one it cannot
+            5 => p.write_file("lib/denied.rs", *r.pick(&[2usize, 9, 9])),
+            6 | 7 => { let _ = std::fs::remove_file(p.dir.join("lib/denied.rs")); }
             _ => {}
-        }
-        let step = gen_step(r, which);
+        } }
+        let step = match script.get(si) { Some((_, st)) => st.clone(), None => gen_step(r, which) };
         let bl = if step.given { "bl.json" } else { ".sloc-guard-baseline.json" };
         // 2. ground truth for this state (same configuration, but never fail-fast, no ratchet)
         write_config(&p, None, false, step.wae);
@@ -336,6 +345,17 @@ fn history(sink: &mut Sink, r: &mut Rng, which: Which, scratch: &str, bin: &str,
                             pred = Some(format!("violation at {} is not in the baseline but is reported {:?}", x.path, status_of(&x.path, x.kind)));
                         } else if !step.warn_only && rc != 1 {
                             pred = Some(format!("un-grandfathered violation at {} but exit {rc}", x.path));
+                        }
+                    }
+                }
+                // C09: a violation of a kind the baseline cannot record is never grandfathered,
+                // whatever entry its path has
+                for x in &processed {
+                    if x.status == "failed" && x.kind == 'o' && pred.is_none() {
+                        if status_of(&x.path, 'o').as_deref() != Some("failed") {
+                            pred = Some(format!("the {} violation at {} (a kind no baseline entry records) is reported {:?}", "placement / depth", x.path, status_of(&x.path, 'o')));
+                        } else if !step.warn_only && rc != 1 {
+                            pred = Some(format!("unrecordable violation at {} but exit {rc}", x.path));
                         }
                     }
                 }
@@ -493,8 +513,18 @@ pub fn run(which: Which, tier: Tier, seed: u64, out: &str) {
     let mut r = Rng::new(seed ^ (which as u64) << 40);
     if let Ok(bin) = std::env::var("SGVERIF_BIN") {
         let scratch = std::env::var("SGVERIF_SCRATCH").unwrap_or_else(|_| "/verif/.build/scratch/bh".to_string());
+        if which == Which::C09 {
+            let plain = Step { root: None, given: true, update: None, ratchet: None, ratchet_by_config: false, warn_only: false, wae: false, files: vec![], fail_fast: false, ff_by_config: false, threads: 1 };
+            // `--update-baseline new` on the default baseline file that an earlier run wrote (known finding)
+            let s1 = Step { given: false, update: Some("all"), ..plain.clone() };
+            let s2 = Step { given: false, update: Some("new"), ..plain.clone() };
+            history(&mut sink, &mut r.fork(), which, &scratch, &bin, 2, &[(&[("src/a.rs", 12), ("src/b.rs", 12)], s1), (&[("src/b.rs", 1)], s2)]);
+            // a denied file whose line-count violation is recorded: the placement violation stays failed
+            let t1 = Step { update: Some("all"), ..plain.clone() };
+            history(&mut sink, &mut r.fork(), which, &scratch, &bin, 3, &[(&[("lib/denied.rs", 9)], t1), (&[], plain.clone()), (&[], Step { fail_fast: true, ..plain.clone() })]);
+        }
         for _ in 0..tier.scale(100, 3_000) {
-            history(&mut sink, &mut r, which, &scratch, &bin, 8);
+            history(&mut sink, &mut r, which, &scratch, &bin, 8, &[]);
         }
     }
     sink.extra.insert("trivial_tag_prefixes".into(), serde_json::json!([format!("{which:?}/plain")]));
